@@ -13,7 +13,7 @@ SPEC = {
         ('K-next(monotone score)', 'next', '^score:(monotone|non-emitting)'),
         ('K-upsert(keeps the better)', 'upsert', '^upsert:present')],
     'bounded': [
-        ('ne-on-vs-off', suites.case_C06, 600, 12000, RULE + '; ' + 'non-trivial = the run with non-emitting states uses one on its best path or the matched indices differ', '')],
+        ('ne-on-vs-off', suites.case_C06, 1500, 25000, RULE + '; ' + 'non-trivial = the run with non-emitting states uses one on its best path or the matched indices differ', '')],
 }
 
 
